@@ -87,7 +87,9 @@ TTxEnd ==
   /\ tx' = [tx EXCEPT ![E.c] = -1]
   /\ UNCHANGED <<file, config, pools, nextObj, reloadPc, staged, txdef, cobj, nops, viol, applied, sc>>
 
-Step == /\ l <= Len(Rec) /\ l' = l + 1 /\ (Reset \/ TWrite \/ TReload \/ TTxStart \/ TTxStep \/ TTxEnd)
+\* PAUSE / RESUME are not in the recorded trace: a held transaction is recorded as starting when RESUME let it go
+Step == /\ l <= Len(Rec) /\ l' = l + 1 /\ paused' = paused /\ parked' = parked
+        /\ (Reset \/ TWrite \/ TReload \/ TTxStart \/ TTxStep \/ TTxEnd)
 TSpec == TInit /\ [][Step]_tv
 Accepted == /\ PrintT(<<"MATCHED", ToString(TLCGet("stats").diameter - 1)>>)
             /\ TLCGet("stats").diameter - 1 = Len(Rec)
